@@ -150,7 +150,7 @@ def run(ch: Choices, focus: str = "C01", params: Optional[dict] = None) -> dict:
                         vb = None if b["result"] is None else b["result"][mode[1]]
                         if va != vb:
                             out["violations"].append({"property": "C10", "oracle": "shaving-optimum-differs-from-bc-optimum", "message": cx + f"optimum with shaving {va}, with plain bound consistency {vb}"})
-        configs.append({"cfg": [cfg["cons"], cfg["var_h"], cfg["dom_h"]], "order": order, "mode": mode, "policy": policy,
+        configs.append({"cfg": [cfg["cons"], cfg["var_h"], cfg["dom_h"]], "decision": cfg.get("decision"), "order": order, "mode": mode, "policy": policy,
                         "alloc": pat if not isinstance(pat, tuple) else list(pat)})
         h.append(res)
         if out["violations"]:
@@ -227,7 +227,7 @@ def run_c15(ch: Choices, params: dict, known: dict) -> dict:
         out["faults"]["dirty-allocator"] += 2
         if reuse:
             out["probes"]["problem_object_reused"] += 1
-        ctx = (f"[{out['model']} cfg={cfg['cons'], cfg['var_h'], cfg['dom_h']} {mode}] solved twice in one interpreter "
+        ctx = (f"[{out['model']} cfg={gen.cfg_str(cfg)} {mode}] solved twice in one interpreter "
                f"(never-written memory {pats[ia]} then {pats[ib]}, in between: {['nothing', 'another problem solved', 'another problem left half enumerated'][between]}, "
                f"problem object {'reused' if reuse else 'rebuilt'}): ")
         for what in ("sols", "result", "stats", "crashed"):
@@ -333,7 +333,7 @@ def run_one(ch, focus, model, cfg, mode, policy, ref, out, problem=None) -> str:
         viol(
             "C04",
             "step-budget",
-            f"{mode} with config {cfg['cons'], cfg['var_h'], cfg['dom_h']} exceeded {SOLVER_BUDGET} simulated steps in "
+            f"{mode} with config {gen.cfg_str(cfg)} exceeded {SOLVER_BUDGET} simulated steps in "
             f"{e} after {L.c['exec']} constraint executions, {L.c['bc']} passes, {L.c['choice']} choices",
         )
         if prop_of_mode == "C03":
@@ -342,7 +342,7 @@ def run_one(ch, focus, model, cfg, mode, policy, ref, out, problem=None) -> str:
         if classify_exception(e) == "harness":
             raise
         crashed = "exception"
-        msg = f"{mode} with config {cfg['cons'], cfg['var_h'], cfg['dom_h']} raised {type(e).__name__}: {e} at {where_of(e)}"
+        msg = f"{mode} with config {gen.cfg_str(cfg)} raised {type(e).__name__}: {e} at {where_of(e)}"
         if isinstance(e, IndexError):
             viol("C16", "index-error", msg)
         viol(prop_of_mode, "crash", msg)
@@ -362,8 +362,8 @@ def run_one(ch, focus, model, cfg, mode, policy, ref, out, problem=None) -> str:
     for k, v in L.probes.items():
         out["probes"][k] += v
     for v in L.violations:
-        viol(v["property"], v["oracle"], f"[{gen.render_model(em)} cfg={cfg['cons'], cfg['var_h'], cfg['dom_h']} {mode}] " + v["message"])
-    ctx = f"[{gen.render_model(model)} cfg={cfg['cons'], cfg['var_h'], cfg['dom_h']} {mode}] "
+        viol(v["property"], v["oracle"], f"[{gen.render_model(em)} cfg={gen.cfg_str(cfg)} {mode}] " + v["message"])
+    ctx = f"[{gen.render_model(model)} cfg={gen.cfg_str(cfg)} {mode}] "
     # ---------------------------------------------------------------------------------------------- C01
     vidx = None
     if result is not None:
